@@ -154,6 +154,18 @@ func runC05() {
 	for _, n := range []int{65530, 65533, 65534, 65535, 65536, 70000} {
 		bigs = append(bigs, big{fmt.Sprintf("%d distinct constants", n), "len(" + bigList(n, "#") + ")", n})
 	}
+	// constant pools around the 65535 limit that also hold constants the de-duplication index never sees (zero floats
+	// are appended unconditionally): an element picked by index must still be the right one
+	for _, n := range []int{65529, 65532, 65533, 65534, 65535, 65536, 65537} {
+		items := make([]string, 0, n+4)
+		items = append(items, "0.0", "0.0", "0.0")
+		for i := 0; i < n; i++ {
+			items = append(items, fmt.Sprintf("%d.5", i+1))
+		}
+		l := "[" + strings.Join(items, ", ") + "]"
+		bigs = append(bigs, big{fmt.Sprintf("%d distinct float constants + 3 zero floats, indexed", n), l + "[3] + 7.25", 8.75},
+			big{fmt.Sprintf("%d distinct float constants + 3 zero floats, last", n), l + fmt.Sprintf("[%d]", n+2), float64(n) + 0.5})
+	}
 	for _, b := range bigs {
 		prog, err := expr.Compile(b.src, expr.Optimize(false))
 		rep.Evaluations++
@@ -178,6 +190,40 @@ func runC05() {
 		}
 		if rerr == nil && (len(v.Stack()) != 0 || v.Scope() != nil) {
 			rep.fail(Failure{Key: "C05-unbalanced-stack", What: "stack or scope left after a large program", Input: in, Want: "empty", Got: "not empty"})
+		}
+	}
+	// one caller-owned VM reused: a run that fails INSIDE an open loop scope, then successful runs - each successful
+	// run must end with an empty stack and no open scope
+	{
+		failing := []string{"map(AI, {10 % (# - #)})", "all(1..3, {AI[#] > 0})", "filter(1..3, {Boom(#) > 0})", "map(1..2, {map(1..2, {1 / (# - #)})})", "count(AI, {#.x})"}
+		good := []string{"len(map(1..3, {# * 2}))", "1 + 2", "all(1..3, {# > 0})", "len(filter(AI, {# > 0}))", "[1, 2][0]"}
+		for _, fsrc := range failing {
+			v := &vm.VM{}
+			fp, err := expr.Compile(fsrc, expr.Optimize(false))
+			if err != nil {
+				continue
+			}
+			for round := 0; round < 3; round++ {
+				_, ferr := v.Run(fp, envs[0])
+				rep.Evaluations++
+				if ferr == nil {
+					break
+				}
+				for _, gsrc := range good {
+					gp, err := expr.Compile(gsrc, expr.Optimize(false))
+					if err != nil {
+						continue
+					}
+					_, gerr := v.Run(gp, envs[0])
+					rep.Evaluations++
+					if gerr == nil && (len(v.Stack()) != 0 || v.Scope() != nil) {
+						rep.fail(Failure{Key: "C05-open-scope", What: "a loop scope (or stack value) is left after a successful run on a VM whose EARLIER run failed inside a loop",
+							Input: map[string]interface{}{"earlier failing run": fsrc, "run": gsrc, "round": round}, Want: "no scope, empty stack", Got: fmt.Sprintf("stack %d, scope %v", len(v.Stack()), v.Scope())})
+						break
+					}
+				}
+			}
+			distinct["reuse|"+fsrc] = true
 		}
 	}
 	rep.Distinct = len(distinct)
